@@ -268,7 +268,9 @@ fn r_run(w: &RWorkload, faults: Vec<Fault>, rep: &mut Report, reference: Option<
                     if let Some(refr) = reference {
                         // raw counts may legitimately differ after a fault (a retried read may
                         // return a different prefix); exact-valued calls must match
-                        let exact = matches!(step, RStep::Open { .. } | RStep::Walk | RStep::Entry(_) | RStep::ReadStorage(_) | RStep::OpenStream(_) | RStep::SeekTo(_) | RStep::ReadToEnd | RStep::CloseStream);
+                        // (a seek relative to the current position depends on the counts earlier
+                        // raw reads returned; it is checked against the model position instead)
+                        let exact = matches!(step, RStep::Open { .. } | RStep::Walk | RStep::Entry(_) | RStep::ReadStorage(_) | RStep::OpenStream(_) | RStep::SeekTo(SeekFrom::Start(_)) | RStep::SeekTo(SeekFrom::End(_)) | RStep::CloseStream);
                         if exact && refr.get(i).map(|x| x != &v).unwrap_or(false) {
                             return Err(("value differs from the fault-free run".to_string(), format!("step #{i} {:?}: fault-free {:?}, under fault {:?}", step, refr[i], v)));
                         }
@@ -279,6 +281,36 @@ fn r_run(w: &RWorkload, faults: Vec<Fault>, rep: &mut Report, reference: Option<
                 Err(kind) => {
                     rep.count(&format!("api_errors.{}", step_name(step)));
                     let _ = kind;
+                    // "after a failed call the same handle can be used again": before retrying,
+                    // look behind the position (the window that was buffered before the failure)
+                    // and come back
+                    if matches!(step, RStep::Read(_) | RStep::Fill(_) | RStep::ReadToEnd) && st.stream.is_some() && attempts == 1 {
+                        let back = st.pos.min(700);
+                        if back > 0 {
+                            let here = st.pos;
+                            let probe = [RStep::SeekTo(SeekFrom::Start(here - back)), RStep::Read(back as usize), RStep::SeekTo(SeekFrom::Start(here))];
+                            let mut ok = true;
+                            for ps in &probe {
+                                match r_exec(&mut st, ps, w)? {
+                                    Ok(_) => {}
+                                    Err(_) => {
+                                        ok = false;
+                                    }
+                                }
+                            }
+                            // the probe must leave the handle where the script expects it
+                            if st.pos != here {
+                                for _ in 0..3 {
+                                    if let Ok(Ok(_)) = r_exec(&mut st, &RStep::SeekTo(SeekFrom::Start(here)), w) {
+                                        break;
+                                    }
+                                }
+                            }
+                            if ok {
+                                rep.count("look_behind_probes_after_error");
+                            }
+                        }
+                    }
                     if attempts >= 4 {
                         trace.push("gave up".into());
                         break;
@@ -371,6 +403,7 @@ pub fn run_c12(ctx: &Ctx, rep: &mut Report) {
                         break;
                     }
                     let plan = vec![Fault { kinds: K_READ | K_SEEK, k, err: *kind, sticky: false, partial }];
+                    crate::guard::case_begin(case); // CPU budget per faulty run, not per workload
                     let r = guard::catch(|| r_run(&wl, plan, rep, Some(&reference.0)));
                     rep.evaluations += 1;
                     rep.count(if partial { "runs.short_then_fail" } else { "runs.single_fault" });
@@ -667,6 +700,21 @@ fn w_exec(st: &mut WState, step: &WStep, rep: &mut Report) -> Result<Result<(), 
                 Ok(()) => {
                     h.content.resize(*n as usize, 0);
                     h.pos = h.pos.min(*n);
+                    // a set_len that reports success has resized the stream - also when an
+                    // earlier attempt failed half-way (the content is then unknowable, the
+                    // length is not)
+                    if !st.structure_tainted {
+                        let path = h.path.clone();
+                        st.shared.pause_faults(true);
+                        let seen = st.cf.entry(&path).map(|e| e.len());
+                        st.shared.pause_faults(false);
+                        if let Ok(l) = seen {
+                            if l != *n {
+                                return Err((format!("set_len Ok | stream does not have the new length{}", if h.tainted { " (an earlier attempt had failed)" } else { "" }), format!("{path}: set_len({n}) returned Ok but the entry reports {l} bytes")));
+                            }
+                            rep.count("ok_set_len_length_checked");
+                        }
+                    }
                     Ok(())
                 }
                 Err(e) => {
@@ -683,6 +731,13 @@ fn w_exec(st: &mut WState, step: &WStep, rep: &mut Report) -> Result<Result<(), 
                     Ok(()) => {
                         let after_failed = h.last_flush_failed;
                         h.last_flush_failed = false;
+                        // Ok from flush means the underlying writer was flushed *after* the last
+                        // byte reached it (a write-behind store would otherwise still hold it)
+                        let pending = st.shared.writes_since_flush();
+                        if pending != 0 {
+                            return Err((format!("flush Ok | underlying writer not flushed after the last write{}", if after_failed { " (previous flush attempt had failed)" } else { "" }), format!("{}: Stream::flush returned Ok but {pending} underlying write(s) happened since the last successful underlying flush", h.path)));
+                        }
+                        rep.count("ok_flush_underlying_flush_checked");
                         // a successful flush means durable: a fresh handle reads back every
                         // accepted byte - also when the previous flush attempt had failed
                         if !h.tainted && !st.structure_tainted {
@@ -823,6 +878,7 @@ pub fn run_c13(ctx: &Ctx, rep: &mut Report) {
                 let kind = if k % 2 == 0 { ErrorKind::Other } else { ErrorKind::TimedOut };
                 let plan = vec![Fault { kinds: mask, k, err: kind, sticky: false, partial }];
                 let mut fired = false;
+                crate::guard::case_begin(case); // CPU budget per faulty run, not per workload
                 let before = rep.get(&format!("positions.{label}"));
                 let r = guard::catch(|| {
                     let (res, hit) = {
